@@ -22,12 +22,14 @@ import (
 	"github.com/icon-project/goloop/common/codec"
 	"github.com/icon-project/goloop/common/crypto"
 	"github.com/icon-project/goloop/common/db"
+	"github.com/icon-project/goloop/common/errors"
 	"github.com/icon-project/goloop/common/log"
 	"github.com/icon-project/goloop/common/wallet"
 	"github.com/icon-project/goloop/module"
 	"github.com/icon-project/goloop/service"
 	"github.com/icon-project/goloop/service/contract"
 	"github.com/icon-project/goloop/service/platform/basic"
+	"github.com/icon-project/goloop/service/scoreapi"
 	"github.com/icon-project/goloop/service/scoreresult"
 	"github.com/icon-project/goloop/service/state"
 	"github.com/icon-project/goloop/service/txresult"
@@ -156,6 +158,9 @@ func (cm *c15CM) GetHandler(from, to module.Address, value *big.Int, ctype int, 
 		if !ok || rest != "" {
 			return nil, scoreresult.InvalidParameterError.New("BadProgram")
 		}
+		if c15UseAsync(d.Params.P) {
+			return &c15Async{CommonHandler: contract.NewCommonHandler(from, to, value, false, cm.log), prog: prog, log: cm.log}, nil
+		}
 		return &c15Script{CommonHandler: contract.NewCommonHandler(from, to, value, false, cm.log), prog: prog, log: cm.log}, nil
 	}
 	return cm.ContractManager.GetHandler(from, to, value, ctype, data)
@@ -183,7 +188,7 @@ func c15Num(s string) (int64, string, bool) {
 
 // c15ParseProg parses ops separated by '.', up to ')' or end.
 //
-//	s<k>=<v>  g<nh>=<g>  e<t>  b<n>  t<n>  x<to>:<v>  y<to>:<v>  c<to>:<v>:<lim>(prog)  d<to>:<v>:<lim>(prog)  f<code>
+//	z (timeout)  s<k>=<v>  g<nh>=<g>  e<t>  b<n>  t<n>  x<to>:<v>  y<to>:<v>  c<to>:<v>:<lim>(prog)  d<to>:<v>:<lim>(prog)  f<code>
 func c15ParseProg(s string) ([]c15Op, string, bool) {
 	var ops []c15Op
 	if s == "" || s[0] == ')' {
@@ -197,6 +202,8 @@ func c15ParseProg(s string) ([]c15Op, string, bool) {
 		s = s[1:]
 		var ok bool
 		switch op.k {
+		case 'z':
+			// timeout: no operand
 		case 'e', 'b', 't', 'f':
 			if op.a, s, ok = c15Num(s); !ok {
 				return nil, s, false
@@ -308,7 +315,7 @@ func (h *c15Script) run(cc contract.CallContext) error {
 			th := &contract.TransferHandler{CommonHandler: contract.NewCommonHandler(self, c15Addrs[op.a], big.NewInt(op.b), true, h.log)}
 			st, used, _, _ := cc.Call(th, cc.StepAvailable())
 			cc.DeductSteps(used)
-			if st != nil && op.k == 'x' {
+			if st != nil && (op.k == 'x' || c15IsTimeout(st)) {
 				return st
 			}
 		case 'c', 'd':
@@ -319,15 +326,153 @@ func (h *c15Script) run(cc contract.CallContext) error {
 			sub := &c15Script{CommonHandler: contract.NewCommonHandler(self, c15Addrs[op.a], big.NewInt(op.b), true, h.log), prog: op.sub, log: h.log}
 			st, used, _, _ := cc.Call(sub, lim)
 			cc.DeductSteps(used)
-			if st != nil && op.k == 'c' {
+			if st != nil && (op.k == 'c' || c15IsTimeout(st)) {
+				// a Timeout cannot be caught: cleanUpFrames has unwound the callee already
 				return st
 			}
 		case 'f':
 			return scoreresult.NewBase(module.StatusReverted+module.Status(op.a%8), "scripted revert")
+		case 'z':
+			return scoreresult.ErrTimeout
 		}
 	}
 	return nil
 }
+
+func c15IsTimeout(st error) bool { return errors.CodeOf(st) == scoreresult.TimeoutError }
+
+// transactions whose program contains a timeout, and every other one by parity of the text
+// length, run on asynchronous handlers (the waitResult message loop, cleanUpFrames across
+// several frames); the rest on synchronous ones. Both must behave the same.
+func c15UseAsync(prog string) bool { return strings.Contains(prog, "z") || len(prog)%2 == 1 }
+
+// c15Async is the same scripted contract as c15Script, written as an AsyncContractHandler:
+// inter-calls are requested with cc.OnCall and continue in SendResult, the outcome is
+// reported with cc.OnResult (or by returning the status from ExecuteAsync).
+type c15Async struct {
+	*contract.CommonHandler
+	prog    []c15Op
+	pc      int
+	pending byte
+	log     log.Logger
+	cc      contract.CallContext
+}
+
+func (h *c15Async) ExecuteAsync(cc contract.CallContext) error {
+	h.cc = cc
+	if err := h.ApplyStepsForInterCall(cc); err != nil {
+		return err
+	}
+	if h.Value != nil && h.Value.Sign() > 0 {
+		th := &contract.TransferHandler{CommonHandler: h.CommonHandler}
+		if st, _, _ := th.DoExecuteSync(cc); st != nil {
+			return st
+		}
+	}
+	done, st := h.resume()
+	if !done {
+		return nil
+	}
+	if st != nil {
+		return st
+	}
+	cc.OnResult(nil, 0, new(big.Int), nil, nil)
+	return nil
+}
+
+func (h *c15Async) SendResult(status error, steps *big.Int, result *codec.TypedObj) error {
+	h.cc.DeductSteps(steps)
+	k := h.pending
+	h.pending = 0
+	if status != nil && (k == 'x' || k == 'c' || c15IsTimeout(status)) {
+		h.cc.OnResult(status, 0, new(big.Int), nil, nil)
+		return nil
+	}
+	if done, st := h.resume(); done {
+		h.cc.OnResult(st, 0, new(big.Int), nil, nil)
+	}
+	return nil
+}
+
+// resume runs ops from pc until the program ends / fails (done) or an inter-call is pending.
+func (h *c15Async) resume() (bool, error) {
+	cc := h.cc
+	self := h.To
+	for h.pc < len(h.prog) {
+		op := h.prog[h.pc]
+		h.pc++
+		switch op.k {
+		case 's':
+			var v []byte
+			if op.b != 0 {
+				v = big.NewInt(op.b).Bytes()
+			}
+			if _, err := cc.GetAccountState(self.ID()).SetValue(c15Key(op.a), v); err != nil {
+				return true, err
+			}
+		case 'g':
+			as := cc.GetAccountState(self.ID())
+			if c := as.Contract(); c != nil {
+				var v []byte
+				if op.b != 0 {
+					v = big.NewInt(op.b).Bytes()
+				}
+				if err := as.SetObjGraph(c.CodeID(), true, int(op.a), v); err != nil {
+					return true, err
+				}
+			}
+		case 'e':
+			cc.OnEvent(self, [][]byte{[]byte("Ev(int)"), big.NewInt(op.a).Bytes()}, nil)
+		case 'b':
+			cc.OnBTPMessage(op.a, []byte{1})
+		case 't':
+			if !cc.DeductSteps(big.NewInt(op.a)) {
+				return true, scoreresult.ErrOutOfStep
+			}
+		case 'x', 'y':
+			th := &contract.TransferHandler{CommonHandler: contract.NewCommonHandler(self, c15Addrs[op.a], big.NewInt(op.b), true, h.log)}
+			h.pending = op.k
+			cc.OnCall(th, cc.StepAvailable())
+			return false, nil
+		case 'c', 'd':
+			lim := cc.StepAvailable()
+			if op.c > 0 && big.NewInt(op.c).Cmp(lim) < 0 {
+				lim = big.NewInt(op.c)
+			}
+			sub := &c15Async{CommonHandler: contract.NewCommonHandler(self, c15Addrs[op.a], big.NewInt(op.b), true, h.log), prog: op.sub, log: h.log}
+			h.pending = op.k
+			cc.OnCall(sub, lim)
+			return false, nil
+		case 'f':
+			return true, scoreresult.NewBase(module.StatusReverted+module.Status(op.a%8), "scripted revert")
+		case 'z':
+			return true, scoreresult.ErrTimeout
+		}
+	}
+	return true, nil
+}
+
+func (h *c15Async) Dispose()             {}
+func (h *c15Async) EEType() state.EEType { return state.JavaEE }
+
+// eeproxy.CallContext (never used: there is no execution engine behind this handler)
+func (h *c15Async) GetValue(key []byte) ([]byte, error)                { return nil, nil }
+func (h *c15Async) SetValue(key []byte, value []byte) ([]byte, error)  { return nil, nil }
+func (h *c15Async) DeleteValue(key []byte) ([]byte, error)             { return nil, nil }
+func (h *c15Async) ArrayDBContains(prefix, value []byte, limit int64) (bool, int, int, error) {
+	return false, 0, 0, nil
+}
+func (h *c15Async) GetInfo() *codec.TypedObj                                           { return nil }
+func (h *c15Async) GetBalance(addr module.Address) *big.Int                            { return new(big.Int) }
+func (h *c15Async) OnEvent(addr module.Address, indexed, data [][]byte) error          { return nil }
+func (h *c15Async) OnResult(status error, flag int, steps *big.Int, result *codec.TypedObj) {}
+func (h *c15Async) OnCall(from, to module.Address, value, limit *big.Int, dataType string, dataObj *codec.TypedObj) {
+}
+func (h *c15Async) OnAPI(status error, info *scoreapi.Info)                            {}
+func (h *c15Async) OnSetFeeProportion(portion int)                                     {}
+func (h *c15Async) SetCode(code []byte) error                                          { return nil }
+func (h *c15Async) GetObjGraph(bool) (int, []byte, []byte, error)                      { return 0, nil, nil, nil }
+func (h *c15Async) SetObjGraph(flags bool, nextHash int, objGraph []byte) error        { return nil }
 
 // ---- environment
 
@@ -903,8 +1048,10 @@ func c15GenProg(g *Gen, depth int, self int) string {
 			} else {
 				ops = append(ops, "e7")
 			}
-		default:
+		case c < 96:
 			ops = append(ops, fmt.Sprintf("f%d", g.Intn(3)))
+		default:
+			ops = append(ops, "z")
 		}
 	}
 	return strings.Join(ops, ".")
@@ -990,6 +1137,22 @@ func c15GenCase(g *Gen, failBias bool) {
 		}
 		g.Emit("exec")
 		known[4] = 0
+	}
+	if (failBias && g.Intn(3) == 0) || g.Intn(8) == 0 {
+		// directed: a Timeout at call depth 1..3 after the outer frames have written storage, the
+		// object graph, and moved value (cleanUpFrames has to unwind all of them to the
+		// transaction's frame); "d" shows that a Timeout cannot be caught
+		inner := []string{"z", "s1=3.z", "e2.c5:0:0(s0=1.z)", "d6:0:0(x1:1.z).e5"}[g.Intn(4)]
+		to := []int{c15Script1, c15Script2, c15Contract}[g.Intn(3)]
+		prog := fmt.Sprintf("s0=2.g4=44.e1.x%d:%d.%c%d:1:0(%s).e9", 1+g.Intn(3), 1+g.Intn(3), "cd"[g.Intn(2)],
+			[]int{c15Script1, c15Script2, c15Contract}[g.Intn(3)], inner)
+		nb := c15InputBytes("c", prog)
+		lim := dflt + input*int64(nb) + 6*call + int64(g.Pick(40, 4000))
+		g.Emit("tx t 0 1 %d %d", lim*price+50, dflt)
+		g.Emit("exec")
+		g.Emit("tx c 1 %d 10 %d %d %s", to, lim, nb, prog)
+		g.Emit("exec")
+		known[1] = 0
 	}
 	if (failBias && g.Intn(3) == 0) || g.Intn(8) == 0 {
 		// directed: the deployed contract (account 9) gets an object graph, then a transaction
@@ -1159,7 +1322,7 @@ func c15GenCase(g *Gen, failBias bool) {
 func c15Malformed(g *Gen) {
 	g.Emit("reset")
 	for _, l := range []string{"exec", "tx t 1 2 3 4", "cfg 1 2 3", "cfg 1 10 1 5 1000 0", "tx t 9 1 0 10", "tx c 1 5 0 100 3 zz",
-		"tx c 1 5 0 100 1 e1", "tx q 1 2 0 10", "tx t 1 2 -5 10", "cfg 1 10 1 5 1000 0", "frob", "exec"} {
+		"tx c 1 5 0 100 1 e1", "tx q 1 2 0 10", "tx c 1 5 0 100 36 z1", "tx c 1 5 0 100 35 z", "tx t 1 2 -5 10", "cfg 1 10 1 5 1000 0", "frob", "exec"} {
 		g.Emit("%s", l)
 	}
 }
